@@ -30,6 +30,7 @@ RULE = (
     "marker text present exactly once. Non-trivial: >= 3 defined labels with reference order != definition order, or a "
     "numeric label colliding with an auto number, or a duplicate / unreferenced definition; distinct by case."
 )
+RULE += (" Documents also contain headings / '(name)=' targets / '{#name}' ids that merely share a footnote label's name (a definition is a duplicate only of an earlier footnote; auto numbers pass over numbers that are names already); 'other content' for the transition means anything but footnotes and warning messages.")
 ASSUMPTIONS = [
     "with footnote_sort disabled the numbering order is docutils' (definition order): the statement's 'order of first "
     "reference' is asserted only with sorting enabled; consistency (reference shows its footnote's label) is asserted always",
@@ -64,6 +65,10 @@ def build(case):
     rw = 0
     pi = 0
     other_names = []
+    if case.get("via") == "front":
+        # the two options selected per document (front matter), over a global configuration that says the opposite
+        lines += ["---", "myst:", "  footnote_sort: " + str(bool(case["sort"])).lower(),
+                  "  footnote_transition: " + str(bool(case["transition"])).lower(), "---"]
 
     def ref_text(labels, container, dup):
         nonlocal rw
@@ -318,7 +323,9 @@ def classify(case, info):
 def check_case(acc, case, project=None) -> list[dict]:
     mk = (acc or Acc(PROPERTY, "replay")).violation
     text, info = build(case)
-    settings = {"myst_footnote_sort": case["sort"], "myst_footnote_transition": case["transition"],
+    front_matter = case.get("via") == "front"
+    g_sort, g_trans = (not case["sort"], not case["transition"]) if front_matter else (case["sort"], case["transition"])
+    settings = {"myst_footnote_sort": g_sort, "myst_footnote_transition": g_trans,
                 "myst_enable_extensions": ["attrs_block"]}
     vs = []
     frontend = "sphinx" if project is not None or case.get("frontend") == "sphinx" else "docutils"
@@ -331,7 +338,7 @@ def check_case(acc, case, project=None) -> list[dict]:
                 own = project = front.SphinxProject()
             try:
                 project.app.env.myst_config = project.app.env.myst_config.copy(
-                    footnote_sort=case["sort"], footnote_transition=case["transition"], enable_extensions=["attrs_block"])
+                    footnote_sort=g_sort, footnote_transition=g_trans, enable_extensions=["attrs_block"])
                 doc, warn = project.read_doc("index", text)
             finally:
                 if own is not None:
@@ -400,10 +407,10 @@ item_st = st.one_of(
     st.builds(lambda L, w, r: {"t": "def", "label": L, "wrap": w, "refs": r}, st.sampled_from(["a", "b", "c", "1", "2"]),
               st.sampled_from([None, None, "quote", "list", "note"]), st.just([])),
 )
-case_st = st.builds(lambda items, names, pos, s, t: {"items": (items[:pos % (len(items) + 1)] + names + items[pos % (len(items) + 1):]),
-                                                    "sort": s, "transition": t},
+case_st = st.builds(lambda items, names, pos, s, t, via: {"items": (items[:pos % (len(items) + 1)] + names + items[pos % (len(items) + 1):]),
+                                                         "sort": s, "transition": t, **({"via": "front"} if via else {})},
                     st.lists(item_st, min_size=1, max_size=14), st.lists(name_item_st, max_size=2), st.integers(0, 14), st.booleans(),
-                    st.booleans())
+                    st.booleans(), st.sampled_from([False, False, True]))
 
 
 def sub_random(acc, shard, nshards, tier, seed):
